@@ -19,7 +19,7 @@ other than the prescribed one for every model that uses that combination."""
 import re
 
 from ..facts import extract_split, units_matching, Program, AnalysisBroken, sx_find, sx_str, sx_enums
-from ..match import ev_write, is_call, call_args, call_obj, field_of, var_of, guard_blocks, branch_edges, implied_edges, only_via
+from ..match import emptied_before, ev_write, is_call, call_args, call_obj, field_of, var_of, guard_blocks, branch_edges, implied_edges, only_via
 
 UNITS = r"/Simbody/src/(SimbodyMatterSubsystemRep|MobilizedBody|Motion)\.cpp$"
 HDR = r"/Simbody/(src/(SimbodyMatterSubsystemRep|SimbodyTreeState|MobilizedBodyImpl|MotionImpl)\.h|include/simbody/internal/Motion\.h)$"
@@ -210,10 +210,15 @@ def partition(chk, P):
     # cleared before the mobilizer loop
     mob_loops = [h for h, body in f.loops().items() if any(swb in body for swb in sw.values())]
     outer = min(mob_loops, key=lambda h: len(dom.get(h, ()))) if mob_loops else None
+    icv = {var_of(call_obj(e)[1]) for _, _, e in pushes if isinstance(call_obj(e), list) and call_obj(e)[0] == "mem"}
     for lst in sorted(set(LIST.values()) | {"presForce"}):
-        clr = [(b, i, e) for b, i, e in f.calls() if str(e.get("fn", "")).endswith("::clear") and _memname(call_obj(e)) == lst]
-        chk.judge(bool(clr) and outer is not None and all(b in dom.get(outer, ()) and b not in f.loops()[outer] for b, _, _ in clr), "PARTITION", "cleared-before-loop:" + lst, f.loc,
-                  "%s is cleared before the loop over mobilizers (a re-realized Instance stage must not keep old entries)" % lst)
+        mine = [(b, i, e) for b, i, e in pushes if _memname(call_obj(e)) == lst]
+        bad = None
+        for b, i, e in mine:
+            o = call_obj(e)
+            bad = bad or emptied_before(P, f, e, var_of(o[1]), o[2])
+        chk.judge(bool(mine) and bad is None, "PARTITION", "cleared-before-loop:" + lst, f.loc,
+                  "%s is emptied (directly or by a method of the cache object) before indices are appended: a re-realized Instance stage must not keep old entries" % lst, bad)
     # nobody else appends
     for g in P.all_fns():
         if g is f:
